@@ -51,7 +51,7 @@ class OggFLACStreamInfo(StreamInfo):
 
     def __init__(self, fileobj):
         page = OggPage(fileobj)
-        while not page.packets[0].startswith(b"\x7FFLAC"):
+        while not (page.packets and page.packets[0].startswith(b"\x7FFLAC")):
             page = OggPage(fileobj)
         major, minor, self.packets, flac = struct.unpack(
             ">BBH4s", page.packets[0][5:13])
@@ -109,7 +109,7 @@ class OggFLACVComment(VCommentDict):
         # second packet - and second page - must be the comment data.
         fileobj.seek(0)
         page = OggPage(fileobj)
-        while not page.packets[0].startswith(b"\x7FFLAC"):
+        while not (page.packets and page.packets[0].startswith(b"\x7FFLAC")):
             page = OggPage(fileobj)
 
         first_page = page
